@@ -244,9 +244,9 @@ def run_crash_history(ctx, base, spec, ops, host, crash_at, post_ops=()):
                 # not blurred by a different order of the hosts' iterations
                 r2 = sim.iterate(host)
                 if r2["error"]:
-                    return {"ncalls": ncalls, "after_crash": after, "end": healthy_view(sim), "tainted": tainted, "rounds": 0, "err": r2["error"], "index": sim.index()}
+                    return {"ncalls": ncalls, "after_crash": after, "end": healthy_view(sim), "tainted": tainted, "rounds": 0, "err": r2["error"], "index": sim.index(), "trees": sim.trees()}
             rounds, err = settle(sim, histories.HOSTS)
-            return {"ncalls": ncalls, "after_crash": after, "end": healthy_view(sim), "tainted": tainted, "rounds": rounds, "err": err, "index": sim.index()}
+            return {"ncalls": ncalls, "after_crash": after, "end": healthy_view(sim), "tainted": tainted, "rounds": rounds, "err": err, "index": sim.index(), "trees": sim.trees()}
         finally:
             sim.shutdown()
 
@@ -285,6 +285,37 @@ def staged_corpus(ctx, base):
                 hb = b["end"][key][0] == "Y" and b["end"][key][2] is True
                 if ha != hb:
                     ctx.fail("C09:diverged-after-crash", f"killed at call {k} on h1: after convergence copy {key} is {b['end'][key]}, the uninterrupted run leaves {a['end'][key]}", rp)
+
+
+def deletion_corpus(ctx, base):
+    """the deletion of a released copy whose acquisition (and file name) are several directories deep, killed at every call: after the restart
+    the copy is gone from its source exactly as an uninterrupted run leaves it --- record removed, file gone, and the directories that held
+    nothing else gone with it (the retry finds part of the way up already removed)"""
+    for acq, name in (("2024/run7", "data.dat"), ("acq1", "sub/deep/f.dat"), ("a/b/c", "d/e")):
+        spec = {"groups": [{"name": "g1"}, {"name": "g2"}, {"name": "g3"}],
+                "nodes": [{"name": "n1", "group": "g1", "stype": "F", "host": "h1", "active": True, "username": "u", "address": "addr"},
+                          {"name": "n2", "group": "g2", "stype": "A", "host": "h2", "active": True, "username": "u", "address": "addr"},
+                          {"name": "n3", "group": "g3", "stype": "A", "host": "h2", "active": True, "username": "u", "address": "addr"}],
+                "acqs": [acq], "files": [{"acq": acq, "name": name, "size": 150}],
+                "copies": [{"file": 0, "node": "n1", "has": "Y", "wants": "N"}, {"file": 0, "node": "n2", "has": "Y", "wants": "Y"}, {"file": 0, "node": "n3", "has": "Y", "wants": "Y"}],
+                "reqs": [], "rules": [], "unregistered": [], "ireqs": []}
+        a = run_crash_history(ctx, base, spec, [], "h1", None)
+        if a is None or a["end"].get(("n1", f"{acq}/{name}"), ("?",))[0] != "N":
+            ctx.broke("harness", "deletion corpus", f"the uninterrupted deletion of {acq}/{name} did not run: {a and a['end']}")
+            continue
+        for k in range(1, a["ncalls"] + 1):
+            b = run_crash_history(ctx, base, spec, [], "h1", k)
+            ctx.count("crash-history")
+            ctx.distinct_add(("deletion", acq, name, k))
+            rp = {"family": "crash-deletion", "spec": spec, "ops": [], "host": "h1", "crash_at": k}
+            if b is None:
+                continue
+            if b["err"]:
+                ctx.fail("C09:daemon-died", f"after a kill at call {k} a restarted daemon died: {b['err'][:300]}", rp)
+                continue
+            if b["end"] != a["end"] or b["trees"]["n1"] != a["trees"]["n1"]:
+                ctx.fail("C09:deletion-not-completed", f"killed at call {k} while deleting the released copy of {acq}/{name}: after the restart the copy is {b['end'].get(('n1', acq + '/' + name))} and the node "
+                         f"holds {[x[0] for x in b['trees']['n1']]}; an uninterrupted run leaves {a['end'].get(('n1', acq + '/' + name))} and {[x[0] for x in a['trees']['n1']]}", rp)
 
 
 def explore_histories(ctx, base, n):
@@ -386,6 +417,7 @@ def explore(ctx):
     explore_items(ctx, base, 12 if q else 600)
     explore_imports(ctx, base)
     explore_scan_completion(ctx, base / "scandone")
+    deletion_corpus(ctx, base)
     explore_histories(ctx, base, 15 if q else 400)
 
 
